@@ -514,8 +514,11 @@ class RegexCompiler:
         self._check_repeat_count(min_count)
         capture_groups = self._find_capture_groups(body)
         for _ in range(min_count):
+            size_before = len(self.bytecode)
             self._emit_capture_reset(capture_groups)
             self._compile_node(body)
+            if len(self.bytecode) == size_before:
+                break  # An empty body: repeating it adds nothing
 
         # Then emit * for the rest
         self._compile_star(body, greedy, need_advance_check)
@@ -534,12 +537,18 @@ class RegexCompiler:
         self._check_repeat_count(max_count)
         capture_groups = self._find_capture_groups(body)
         for _ in range(min_count):
+            size_before = len(self.bytecode)
             self._emit_capture_reset(capture_groups)
             self._compile_node(body)
+            if len(self.bytecode) == size_before:
+                break  # An empty body: repeating it adds nothing
 
         # Emit body (max_count - min_count) times (optional)
         for _ in range(max_count - min_count):
+            size_before = len(self.bytecode)
             self._compile_optional(body, greedy)
+            if len(self.bytecode) == size_before:
+                break  # An empty body: repeating it adds nothing
 
     def _check_repeat_count(self, count: int) -> None:
         """Counted quantifiers are unrolled: a count beyond the program size
